@@ -68,6 +68,9 @@ MUTANTS = {
                                                            "            # an unknown version can never satisfy any requirement\n            if self.version is None:\n"),
     'M47-not_found_message-part-of-dependency-identity': ('mesonbuild/dependencies/detect.py',
                                                           "'default_options',\n                   'not_found_message', 'include_type'}:", "'default_options',\n                   'include_type'}:"),
+    'M48-missing-fallback-variable-raises-wider-exception': ('mesonbuild/interpreter/interpreterobjects.py',
+                                                            "                ustr += f' Did you mean \"{close_matches[0]}\"?'\n            raise InvalidArguments(ustr)",
+                                                            "                ustr += f' Did you mean \"{close_matches[0]}\"?'\n            raise InterpreterException(ustr)"),
 }
 
 
